@@ -111,7 +111,21 @@ def check_pairing(p, w, r, max_g):
             pend = {'put': None, 'get': None}      # queue event needing a trigger
             touched = {'put': [], 'get': []}
 
-            def close(where):
+            def queue_known_empty(which, g, dl, upto):
+                # a missing wake-up is harmless when the path conditions imply that nobody is waiting
+                Q = QP if which == 'put' else QG
+                atoms = events_atoms(pa.events[:upto])
+                return lin.implies(atoms, ('==', lin.norm(sum_lin([Q], g, dl))))
+
+            def close(where, g=None, dl=None, upto=None):
+                g = pa.st.gen if g is None else g
+                dl = pa.st.delta if dl is None else dl
+                upto = len(pa.events) if upto is None else upto
+                for which in ('put', 'get'):
+                    if acc[which] > 0 and last_rise[which] is not None and queue_known_empty(which, g, dl, upto):
+                        acc[which] = 0
+                    if pend[which] is not None and pend[which].op != 'append' and queue_known_empty(which, g, dl, upto):
+                        pend[which] = None
                 for which in ('put', 'get'):
                     if acc[which] > 0 and last_rise[which] is not None:
                         record(root, which, last_rise[which], False, pa,
@@ -160,7 +174,7 @@ def check_pairing(p, w, r, max_g):
                         last_rise[which] = None if acc[which] <= 0 else last_rise[which]
                     pend[which] = None
                 elif e.kind == 'yield':
-                    close(f'the yield at line {e.line}')
+                    close(f'the yield at line {e.line}', e.g, e.dl, pa.events.index(e))
             close(f'the end of {root} ({status_str(pa.status)})')
     for key, rec in sorted(sites.items()):
         e = rec['e']
